@@ -317,6 +317,12 @@ func (m *btModel) transitionW(c chainSpec, pre, post *memory.Database, kind, ret
 	if len(a1) == 0 {
 		want = "-"
 	}
+	if !wfail && kind == "return" && ret == "failed" && parts[0] == "failed" {
+		// a database the migration refuses (inconsistent counts, missing header, …): model and code
+		// agree on the refusal; which healthy ranges were committed before it is schedule-dependent
+		m.res.Hit("bt-refusal-agrees-with-model")
+		return
+	}
 	if parts[1] != want && kind == "crash" {
 		// an image taken after the last data commit of the run (only the clearing of the already
 		// empty old buckets follows) is the database of the completed run
